@@ -58,6 +58,15 @@ def module_value_reads(repo):
             if got:
                 out[q] = got
     repo._module_value_reads = out
+    # (callee, parameter) pairs no longer handed on
+    dropped = {}
+    for m, tree in repo.modules.items():
+        for q, body, i, fn in canon.outer_functions(tree, m):
+            if q in repo.changed and q in ref:
+                d = canon.dropped_forwarding(fn, ref[q]["src"])
+                if d:
+                    dropped[q] = d
+    repo._dropped_forwarding = dropped
     return out
 
 
@@ -92,6 +101,15 @@ def new_guard_rule(ctx, prop):
         for nm in names:
             n += 1
             ctx.bad(rid2, q0, "the function works on the objects it was given, not on the module's defaults", f"now reads the module-level value `{nm}`", key_detail=f"new global {nm}")
+    rid3 = f"R{prop[1:]}x"
+    ctx.rule(rid3, "a parameter that the confirmed function handed on to a call it still makes is still handed on (otherwise the callee falls back to its default)", kind="N")
+    for q, pairs in sorted((getattr(ctx.repo, "_dropped_forwarding", None) or {}).items()):
+        q0 = q.split("#")[0]
+        if not (any(c == q0 or c.startswith(q0 + ".") or c.startswith(q0 + "->") for c in anchored) or q0.rsplit(".", 1)[0] in classes):
+            continue
+        for callee, p_ in pairs:
+            n += 1
+            ctx.bad(rid3, q0, "what the caller asked for reaches the code that acts on it", f"parameter `{p_}` is no longer passed to {callee}(...)", key_detail=f"dropped {p_} -> {callee}"[:80])
     return n
 
 
